@@ -10,6 +10,7 @@ CONSTANTS NKeys,      \* key ranks are 1..NKeys (rank 1 is the empty key)
           Vals,       \* values: records [t, x]
           Preds,      \* filter predicates
           Ops,        \* enabled action kinds
+          Bulks,      \* prepared slices appended in one step (boundary sizes 0..13); {} when unused
           MaxList,    \* bound on the caller's slice
           MinList,    \* builds need at least this many items (0 when exhaustive; steers -simulate)
           MaxOps      \* bound on the number of non-Push actions
@@ -25,7 +26,7 @@ vars == <<pend, cur, table, nops, act, out>>
 Attrs == {[k |-> k, t |-> v.t, x |-> v.x] : k \in 1..NKeys, v \in Vals}
 
 (* observable outputs of an action; c is the Set the action produced *)
-Out(c) == [len |-> Len(c), look |-> LookAll(c, NKeys), iter |-> Indexed(c), selfEq |-> TRUE,
+Out(c) == [len |-> Len(c), look |-> LookAll(c, NKeys), iter |-> Indexed(c), get |-> GetAll(c), selfEq |-> TRUE,
            bag |-> <<>>, dropped |-> <<>>, orig |-> <<>>, merged |-> <<>>, eq |-> TRUE]
 
 Init == /\ pend = <<>> /\ cur = <<>> /\ table = <<>> /\ nops = 0
@@ -34,6 +35,14 @@ Init == /\ pend = <<>> /\ cur = <<>> /\ table = <<>> /\ nops = 0
 Push(a) == /\ "Push" \in Ops /\ nops < MaxOps /\ Len(pend) < MaxList
            /\ pend' = Append(pend, a)
            /\ act' = [op |-> "Push", a |-> a]
+           /\ out' = Out(cur)
+           /\ UNCHANGED <<cur, table, nops>>
+
+(* the caller starts from a whole prepared slice (n distinct keys in scrambled order plus        *)
+(* superseded duplicates): drives every distinct-count 0..13 through each constructor and Filter *)
+Bulk(l) == /\ "Bulk" \in Ops /\ nops = 0 /\ pend = <<>> /\ l # <<>>
+           /\ pend' = l
+           /\ act' = [op |-> "Bulk", items |-> l]
            /\ out' = Out(cur)
            /\ UNCHANGED <<cur, table, nops>>
 
@@ -82,6 +91,7 @@ Record == /\ "Record" \in Ops /\ Op
           /\ UNCHANGED <<pend, cur>>
 
 Next == \/ \E a \in Attrs : Push(a)
+        \/ \E l \in Bulks : Bulk(l)
         \/ \E h \in {"NewSet", "Sortable"} : New(h)
         \/ \E h \in {"Filtered", "SortableFiltered"}, p \in Preds : NewF(h, p)
         \/ \E p \in Preds : Filter(p)
